@@ -456,6 +456,166 @@ theorem return_to_core (env : Env) (base : Url) (u : Str) (allow : List Str) (r 
           rw [portParse_digits _ _ (List.all_eq_true.2 (decimal_digits n)) (decimal_ne_nil n) (by rw [decimalVal_decimal]; exact hle),
             decimalVal_decimal]
 
+/-! ## the original-URL theorem -/
+
+theorem takeWhile_both (l : Str) :
+    (l.takeWhile (· != '#')).takeWhile (· != '?') = l.takeWhile (fun c => !isPathEnd c) := by
+  induction l with
+  | nil => rfl
+  | cons c r ih =>
+    by_cases h1 : c = '#'
+    · subst h1; simp [List.takeWhile, isPathEnd]
+    · by_cases h2 : c = '?'
+      · subst h2; simp [List.takeWhile, isPathEnd]
+      · have a : (c != '#') = true := by simp [h1]
+        have b : (c != '?') = true := by simp [h2]
+        have e : (!isPathEnd c) = true := by simp [isPathEnd, h1, h2]
+        rw [List.takeWhile_cons, if_pos a, List.takeWhile_cons, if_pos b,
+          List.takeWhile_cons (p := fun c => !isPathEnd c), if_pos e, ih]
+
+theorem dot_members : ".".toList ∈ Gen.Pkce.dotSegments ∧ "%2e".toList ∈ Gen.Pkce.dotSegments ∧
+    "..".toList ∈ Gen.Pkce.dotSegments ∧ ".%2e".toList ∈ Gen.Pkce.dotSegments ∧ "%2e.".toList ∈ Gen.Pkce.dotSegments ∧
+    "%2e%2e".toList ∈ Gen.Pkce.dotSegments := by decide
+
+theorem dots_of_not_contains (b : Str) (h : Gen.Pkce.dotSegments.contains (b.map asciiLower) = false) :
+    isSingleDot b = false ∧ isDoubleDot b = false := by
+  have hn : ∀ x ∈ Gen.Pkce.dotSegments, (b.map asciiLower == x) = false := by
+    intro x hx
+    rw [beq_eq_false_iff_ne]
+    intro heq
+    rw [Bool.eq_false_iff] at h
+    apply h
+    rw [heq]
+    simpa using hx
+  obtain ⟨d1, d2, d3, d4, d5, d6⟩ := dot_members
+  unfold isSingleDot isDoubleDot
+  simp only [hn _ d1, hn _ d2, hn _ d3, hn _ d4, hn _ d5, hn _ d6, Bool.or_self, and_self]
+
+theorem repairedOU_accepts {env : Env} {u0 pfx l : Str} (h : validateOriginalUrlRepaired env u0 pfx = .ok l) :
+    l = fallback pfx ∨
+      (hasUnsafeChars l = false ∧ sSlash.isPrefixOf l = true ∧ ['/', '/'].isPrefixOf l = false ∧
+        hasDotSegment (pathPart l) = false ∧ (pfx = [] ∨ pfx.isPrefixOf l = true)) := by
+  unfold validateOriginalUrlRepaired at h
+  dsimp only at h
+  split at h
+  · simp only [Except.ok.injEq] at h; exact Or.inl h.symm
+  rename_i h1
+  split at h
+  · simp only [Except.ok.injEq] at h; exact Or.inl h.symm
+  split at h
+  · simp only [Except.ok.injEq] at h; exact Or.inl h.symm
+  split at h
+  · simp only [Except.ok.injEq] at h; exact Or.inl h.symm
+  rename_i h2
+  split at h
+  · simp only [Except.ok.injEq] at h; exact Or.inl h.symm
+  rename_i h3
+  split at h
+  · simp only [Except.ok.injEq] at h; exact Or.inl h.symm
+  rename_i h4
+  simp only [Except.ok.injEq] at h
+  subst h
+  right
+  have hA : sSlash.isPrefixOf (truncateUrl u0) = true ∧ ['/', '/'].isPrefixOf (truncateUrl u0) = false := by
+    cases ha : sSlash.isPrefixOf (truncateUrl u0) <;> cases hb : ['/', '/'].isPrefixOf (truncateUrl u0) <;>
+      simp only [ha, hb] at h2 <;> simp at h2 ⊢
+  refine ⟨by simpa using h1, hA.1, hA.2, by simpa using h3, ?_⟩
+  simp only [Bool.and_eq_true, Bool.not_eq_true', not_and, Bool.not_eq_false] at h4
+  by_cases hp : pfx = []
+  · exact Or.inl hp
+  · right
+    apply h4
+    cases pfx with
+    | nil => exact absurd rfl hp
+    | cons => rfl
+
+theorem plain_not_pathSet {c : Char} (h : PlainPathChar c) : inPathSet c = false := by
+  obtain ⟨h1, h2, _, h4, h5, h6, h7, h8, h9, h10, h11, h12⟩ := h
+  have hsp : c ≠ ' ' := by rintro rfl; revert h1; decide
+  simp only [inPathSet, inQuerySet, inC0Set, Bool.or_eq_false_iff, decide_eq_false_iff_not, beq_eq_false_iff_ne, ne_eq]
+  repeat' apply And.intro
+  all_goals first | assumption | omega
+
+theorem plain_not_pathEnd {c : Char} (h : PlainPathChar c) : (!isPathEnd c) = true := by
+  obtain ⟨_, _, _, h4, h5, _⟩ := h
+  simp [isPathEnd, h4, h5]
+
+/-- Python's dot-segment test on `/g'` covers every segment the path state will see -/
+theorem dots_of_python (g' : Str) (hdots : hasDotSegment (pathPart ('/' :: g')) = false) :
+    ∀ seg ∈ splitOn '/' (g'.takeWhile (fun c => !isPathEnd c)), isSingleDot seg = false ∧ isDoubleDot seg = false := by
+  intro seg hseg
+  apply dots_of_not_contains
+  unfold hasDotSegment pathPart at hdots
+  rw [takeWhile_both, List.any_eq_false] at hdots
+  have hpe : (!isPathEnd '/') = true := by decide
+  rw [List.takeWhile_cons, if_pos hpe] at hdots
+  have : seg ∈ splitOn '/' ('/' :: g'.takeWhile (fun c => !isPathEnd c)) := by
+    unfold splitOn
+    simp [hseg]
+  simpa using hdots seg this
+
+/-- a clean absolute path `/g'` (not `//…`, no dot segments) that starts with the prefix resolves same-origin under it -/
+theorem abspath_safe (base : Url) (pfx g' : Str) (hcl : Clean ('/' :: g')) (hns' : ∀ r, g' ≠ '/' :: r)
+    (hd : ∀ seg ∈ splitOn '/' (g'.takeWhile (fun c => !isPathEnd c)), isSingleDot seg = false ∧ isDoubleDot seg = false)
+    (hpfxc : ∀ c ∈ pfx, PlainPathChar c) (hp : pfx = [] ∨ pfx.isPrefixOf ('/' :: g') = true) :
+    SafeSameOrigin base pfx ('/' :: g') := by
+  obtain ⟨url, hparse, hs, hh, hpo, hpath⟩ := parse_abspath base g' hcl hns' hd
+  refine ⟨url, hparse, hs, hh, hpo, ?_⟩
+  rw [hpath]
+  rcases hp with rfl | hp
+  · exact List.nil_prefix
+  · obtain ⟨rest, hrest⟩ := List.isPrefixOf_iff_prefix.1 hp
+    rw [← hrest]
+    have hall : ∀ c ∈ pfx, (!isPathEnd c) = true := fun c hc => plain_not_pathEnd (hpfxc c hc)
+    have htw : (pfx ++ rest).takeWhile (fun c => !isPathEnd c) = pfx ++ rest.takeWhile (fun c => !isPathEnd c) := by
+      clear hrest hp
+      induction pfx with
+      | nil => rfl
+      | cons c cs ih =>
+        have hc := hall c (by simp)
+        simp only [List.cons_append, List.takeWhile_cons, hc, if_true]
+        rw [ih (fun x hx => hpfxc x (by simp [hx])) (fun x hx => hall x (by simp [hx]))]
+    rw [htw, encodeWith_append, encodeWith_id _ pfx (fun c hc => plain_not_pathSet (hpfxc c hc))]
+    exact List.prefix_append _ _
+
+theorem slash_shape {g : Str} (hsl : sSlash.isPrefixOf g = true) (hns : ['/', '/'].isPrefixOf g = false) :
+    ∃ g', g = '/' :: g' ∧ ∀ r, g' ≠ '/' :: r := by
+  cases g with
+  | nil => simp [sSlash] at hsl
+  | cons c r =>
+    simp only [sSlash, List.isPrefixOf, Bool.and_eq_true, beq_iff_eq] at hsl
+    refine ⟨r, by rw [← hsl.1], ?_⟩
+    rintro r' rfl
+    rw [← hsl.1] at hns
+    simp [List.isPrefixOf] at hns
+
+theorem original_core (env : Env) (base : Url) (u0 pfx l : Str) (hp : PrefixOK pfx)
+    (h : validateOriginalUrlRepaired env u0 pfx = .ok l) : SafeSameOrigin base pfx l := by
+  rcases repairedOU_accepts h with rfl | ⟨hsafe, hsl, hns, hdots, hpre⟩
+  · -- the fallback: the prefix itself, or "/"
+    rcases hp with rfl | ⟨⟨r, rfl, hr⟩, hplain, hsegs⟩
+    · have : fallback [] = '/' :: [] := rfl
+      rw [this]
+      exact abspath_safe base [] [] (by intro c hc; simp at hc; subst hc; decide) (by intro r h; cases h)
+        (by intro seg hseg; simp [splitOn] at hseg; subst hseg; decide) (by simp) (Or.inl rfl)
+    · have hf : fallback ('/' :: r) = '/' :: r := rfl
+      rw [hf]
+      have hcl : Clean ('/' :: r) := fun c hc => ⟨(hplain c hc).1, (hplain c hc).2.2.1⟩
+      have hall : ∀ c ∈ r, (!isPathEnd c) = true := fun c hc => plain_not_pathEnd (hplain c (by simp [hc]))
+      refine abspath_safe base ('/' :: r) r hcl hr ?_ hplain (Or.inr (by simp))
+      rw [takeWhile_all _ _ hall]
+      intro seg hseg
+      apply hsegs
+      unfold splitOn
+      simp [hseg]
+  · obtain ⟨g', rfl, hg'⟩ := slash_shape hsl hns
+    have hcl := (clean_of_safe hsafe).1
+    have hpfxc : ∀ c ∈ pfx, PlainPathChar c := by
+      rcases hp with rfl | ⟨_, hplain, _⟩
+      · simp
+      · exact hplain
+    exact abspath_safe base pfx g' hcl hg' (dots_of_python g' hdots) hpfxc hpre
+
 end Aux
 
 end VgiVerif.C37
